@@ -217,6 +217,10 @@ class Recon:
                 kws = tuple(sorted(supplied.items()))
                 DUAL.add(q)
         t = ('call', q, args, kws, uid)
+        if q == 'len' and len(args) == 1 and not kws:
+            ln = _length_of(args[0])
+            if ln is not None:
+                return ln           # len(np.zeros(n).astype(bool)) is n
         self.calls.append((t, tuple(env.get('__conds__', ())), n))
         # list building: x.append(v) on a local list literal keeps the list structural
         if q == '.append' and isinstance(n.func, ast.Attribute) and isinstance(n.func.value, ast.Name) and len(args) == 2:
@@ -439,6 +443,7 @@ class Recon:
                 i_ = ('loopvar', tgt.elts[0].id, ('call', 'range', (('call', 'len', (xs,), (), None),), (), None))
                 body_env[tgt.elts[0].id] = i_
                 body_env[tgt.elts[1].id] = mkidx(xs, i_)
+                it = i_[2]          # the loop is entered over range(len(xs)), like its index form
             elif isinstance(tgt, (ast.Tuple, ast.List)) and all(isinstance(e_, ast.Name) for e_ in tgt.elts):
                 # the position in the target tuple, not the name, tells the variables of one loop apart
                 for k_, e_ in enumerate(tgt.elts):
@@ -510,6 +515,19 @@ class Recon:
         self.block(self.f.node.body, env, [])
         self.env = env
         return self
+
+
+def _length_of(t):
+    """length of a freshly allocated array as a term, if the allocation says it"""
+    while t[0] == 'call' and t[1] in ('.astype', '.copy') and t[2]:
+        t = t[2][0]
+    if t[0] == 'call' and t[1] in ('numpy.zeros', 'numpy.ones', 'numpy.empty', 'numpy.full') and t[2]:
+        shape = t[2][0]
+        if shape[0] == 'tuple':
+            return shape[1][0] if shape[1] else None
+        if shape[0] in ('param', 'call', 'bin', 'attr', 'proj', 'const', 'idx'):
+            return shape
+    return None
 
 
 def _append(lst, item):
